@@ -42,6 +42,19 @@ structure Obs (K : Type) where
   t : K
   out : Out
 
+/-- A Look To handler asleep inside `WaitForUserRhythm.initialise_line` (on the socket thread): the
+arguments it has already evaluated. -/
+structure Susp (K : Type) where
+  callTime : K
+  stage : Nat
+  userTreble : Bool
+  nUser : Nat
+
+/-- What the socket thread does next: handle a message, or wake the sleeping handler up. -/
+inductive Ev where
+  | msg (m : Msg)
+  | resume
+
 structure World (K : Type) where
   now : K
   bot : Bot
@@ -54,6 +67,7 @@ structure World (K : Type) where
   exited : Bool                 -- main_loop returned (inactivity)
   tape : List (K × K)           -- the implementation's numpy regression results, in order
   maxDev : K                    -- largest |tape - own closed form| seen
+  suspended : Option (Susp K) := none   -- the socket thread is asleep inside a Look To handler
 
 variable {K : Type} [Num K]
 
@@ -88,6 +102,10 @@ def World.delay (w : World K) : K :=
 /-- Interpret one output of the Bot: record it, and apply rhythm calls to the rhythm object. -/
 def World.applyOut (wt : K → K) (callTime : K) (w : World K) (o : Out) : World K :=
   let w := { w with obs := { t := w.now, out := o } :: w.obs }
+  -- `look_to_has_been_called` begins with `self._last_activity_time = time.time()`
+  let w := match o with
+    | .rInit _ _ _ => { w with lastActivity := w.now }
+    | _ => w
   match w.rh.stub with
   | some _ => w
   | none =>
@@ -129,8 +147,8 @@ def isCrash : Out → Option String
   | .crash e => some e
   | _ => none
 
-/-- Deliver one message to its handler at the current time. -/
-def World.deliver (wt : K → K) (w : World K) (m : Msg) : World K :=
+/-- Deliver one message to its handler at the current time (the whole handler runs). -/
+def World.deliverMsg (wt : K → K) (w : World K) (m : Msg) : World K :=
   let (b', outs) := w.bot.onMsg m
   let w1 := { w with bot := b' }
   let w2 := outs.foldl (World.applyOut wt w.now) w1
@@ -138,13 +156,76 @@ def World.deliver (wt : K → K) (w : World K) (m : Msg) : World K :=
   | some e => { w2 with handlerCrashes := w2.handlerCrashes ++ [e] }
   | none => w2
 
+/-- Will this message's handler go to sleep on the socket thread?  Only an accepted Look To does, and
+only when the waiting rhythm wraps the regression (`WaitForUserRhythm.initialise_line` sleeps 20 ms
+"to clear any current waiting loops").  The result holds the arguments of `initialise_line`, which are
+evaluated before the sleep. -/
+def World.lookToSuspends (w : World K) (m : Msg) : Option (Susp K × WaitR K) :=
+  match m with
+  | .call c =>
+    if c == Generated.call_LOOK_TO then
+      match w.rh.stub, w.rh.wait with
+      | none, some wr =>
+        let b := w.bot
+        if b.checkStartingRow && b.checkNumberOfBells (b.nextGen.getD b.gen) then
+          match b.openingRow with
+          | treble :: _ =>
+            some ({ callTime := w.now, stage := b.n, userTreble := b.userAssigned treble,
+                    nUser := (b.rounds.filter b.userAssigned).length }, wr)
+          | [] => none
+        else none
+      | _, _ => none
+    else none
+  | _ => none
+
+/-- First part of that handler, up to the sleep: `return_to_mainloop()`, the arguments, and the outer
+half of `initialise_line` (all expectations forgotten).  The Bot is untouched so far. -/
+def World.lookToBegin (w : World K) (s : Susp K) (wr : WaitR K) : World K :=
+  { w with
+    obs := { t := w.now, out := .rInit s.stage s.userTreble s.nUser } :: { t := w.now, out := .rReturn } :: w.obs,
+    rh := { w.rh with reg := { w.rh.reg with shouldReturn := true },
+                      wait := some { wr.initialise with shouldReturn := true } },
+    lastActivity := w.now,
+    suspended := some s }
+
+/-- Second part, after the sleep, with whatever the main thread did meanwhile: the inner line is
+initialised with the hold-up *as it is now* … -/
+def World.lookToInner (w : World K) (s : Susp K) : World K :=
+  match w.rh.wait with
+  | some wr => w.withReg (fun regf => w.rh.reg.initialiseLine regf s.stage s.userTreble
+                            (s.callTime + Num.ofQ lookToDuration - wr.delay))
+  | none => w
+
+/-- … then the rest of `look_to_has_been_called` runs on the Bot *as it is now*. -/
+def World.lookToRest (wt : K → K) (w : World K) : World K :=
+  let p := w.bot.armLookTo.startNextRow true
+  let w2 := p.2.foldl (World.applyOut wt w.now) { w with bot := p.1 }
+  match p.2.findSome? isCrash with
+  | some e => { w2 with handlerCrashes := w2.handlerCrashes ++ [e] }
+  | none => w2
+
+def World.lookToResume (wt : K → K) (w : World K) (s : Susp K) : World K :=
+  (({ w with suspended := none } : World K).lookToInner s).lookToRest wt
+
+/-- One step of the socket thread. -/
+def World.deliver (wt : K → K) (w : World K) (e : Ev) : World K :=
+  match e with
+  | .resume =>
+    match w.suspended with
+    | some s => w.lookToResume wt s
+    | none => w
+  | .msg m =>
+    match w.lookToSuspends m with
+    | some (s, wr) => w.lookToBegin s wr
+    | none => w.deliverMsg wt m
+
 /-- `sleep(d)` on the main thread: deliver what is due, advance the clock.  Returns the remaining
 events; `none` when the run's end time was reached during this sleep. -/
-def World.sleep (wt : K → K) (endTime : K) (w : World K) (d : K) (events : List (K × Msg)) :
-    World K × List (K × Msg) × Bool :=
+def World.sleep (wt : K → K) (endTime : K) (w : World K) (d : K) (events : List (K × Ev)) :
+    World K × List (K × Ev) × Bool :=
   let wake := w.now + d
   let limit := if endTime < wake then endTime else wake
-  let rec go (w : World K) : List (K × Msg) → World K × List (K × Msg)
+  let rec go (w : World K) : List (K × Ev) → World K × List (K × Ev)
     | [] => (w, [])
     | (t, m) :: rest =>
       if t ≤ limit then
@@ -254,7 +335,7 @@ def World.mainStep (wt : K → K) (w : World K) : World K × StepRes K :=
   | .tickSlept => ({ w with pc := .ringCheck }, .continue)
 
 /-- Run the world until the end time, the end of the main loop, or the fuel runs out. -/
-def World.run (wt : K → K) (endTime : K) : Nat → World K → List (K × Msg) → World K × Bool
+def World.run (wt : K → K) (endTime : K) : Nat → World K → List (K × Ev) → World K × Bool
   | 0, w, _ => (w, false)
   | fuel + 1, w, events =>
     match w.mainStep wt with
